@@ -48,16 +48,16 @@ CHECKS.update({
 CHECKS.update({
     'C05': dict(
         technique='byte-copy audit of the f32 codec + key discipline + must-pass-through write rule + truncation (sibling) rule + effect table over the build call graph',
-        text='No float arithmetic and one endianness class in the f32 codec; every item API addresses Key::item(self.index, item); every success return of add/append follows the item put; every vector decoded from a stored leaf and returned or re-encoded is truncated to the declared dimension; iterators scan exactly the item prefix pairing id and vector of the same entry; clear removes every key; nothing reachable from the build writes an item key except the header-only preprocess rewrite; metadata.items is the live item scan.',
+        text='No float arithmetic and one endianness class in the f32 codec; every item API addresses Key::item(self.index, item); every success return of add/append follows the item put; every vector decoded from a stored leaf and returned or re-encoded is truncated to the declared dimension; iterators scan exactly the item prefix pairing id and vector of the same entry; clear removes every key; nothing reachable from the build writes an item key except the header-only preprocess rewrite; metadata.items is the live item scan; every success path of a build publishes the metadata (R-PUBLISH); the quantised codec clauses of C12 (packer, iterator) are re-evaluated because the item store goes through them.',
         design='DESIGN.md §4 C05',
         note='NOT decided: heed/LMDB get/put fidelity; bit-exactness beyond "no arithmetic between API and store".'),
     'C13': dict(
         technique='typestate/RMW discipline over MIR: atomic-field access table, provenance of returned ids, constructor dataflow, Sync audit, closure-capture audit',
-        text='Uniqueness of ids under every schedule follows from RMW atomicity alone once: every counter access is a single fetch_add(..,1), every returned id is that fetch_add result or select() at it, the flag is monotone, the free pool is (0..last_id) minus used with the fresh counter starting at max(used)+1, the used set is the scan of the index own tree prefix, no &mut path to the generator exists, and rayon workers capture only shared references. These are facts about the code, so they cover all interleavings and thread counts.',
+        text='Uniqueness of ids under every schedule follows from RMW atomicity alone once: every counter access is a single fetch_add(..,1), every returned id is that fetch_add result or select() at it, the flag is monotone, the free pool is (0..last_id) minus used with the fresh counter starting at max(used)+1, the used set is the scan of the index own tree prefix, no &mut path to the generator exists, and rayon workers capture only shared references. These are facts about the code, so they cover all interleavings and thread counts. The C01 forest rules are re-evaluated (the ids allocated must also be stored and linked).',
         design='DESIGN.md §4 C13',
         note='NOT decided: rayon / std atomics themselves (trusted); that the forest built in parallel satisfies C01 beyond id uniqueness.'),
     'C16': dict(
-        technique='wire-schema extraction from encoder/decoder MIR (ordered append events, slice-offset chains) compared with a reference layout table',
+        technique='wire-schema extraction from encoder/decoder MIR (ordered append events, slice-offset chains) compared with a reference layout table; byte-layout expressions (array literals, concat, to_vec, in-place filled arrays) evaluated to the same rows',
         text='Encoder rows = decoder rows = reference rows for KeyCodec, PrefixCodec, NodeId, NodeCodec (per variant, tags), MetadataCodec, VersionCodec, RoaringBitmapCodec; NodeMode discriminants and TryFrom table; metric names; header sizes/fields; native-endian element encoding on both sides; quantised packer emits one NE u64 per chunk of 64. A consistent encoder+decoder change, invisible to round-trip tests, is reported.',
         design='DESIGN.md §4 C16',
         note='NOT decided: roaring serialisation; decoding of real golden fixtures (needs data); NE vs LE not distinguished on this little-endian host.'),
@@ -68,7 +68,7 @@ CHECKS.update({
         note='NOT decided: that real v0.4 data decodes (needs data).'),
     'C18': dict(
         technique='edge dominance of the TypeId test over all writes + must-pass-through / per-element loop rules + truncation rule',
-        text='Same metric => no write; on a real change every path deletes the metadata, deletes every tree node and re-encodes every item in place from its own truncated vector with the new metric header/codec; no item is deleted; handle keeps index/dimensions; keys carry the own index; open refuses a different stored name.',
+        text='Same metric => no write; on a real change every path deletes the metadata, deletes every tree node and re-encodes every item in place from its own truncated vector with the new metric header/codec; no item is deleted; handle keeps index/dimensions; keys carry the own index; open refuses a different stored name. The C01 forest rules are re-evaluated (the rebuild after a change must wipe and rewrite the forest).',
         design='DESIGN.md §4 C18',
         note='NOT decided: validity/searchability after the rebuild beyond C01/C02 clauses.'),
 })
@@ -76,17 +76,17 @@ CHECKS.update({
 CHECKS.update({
     'C01': dict(
         technique='bounded interprocedural kind inference with mode refinement + L/R tag propagation + must-pass-through / per-element loop rules over MIR',
-        text='Necessary local disciplines of the forest invariant, each decided on every path: no tree id reaches an item sink or vice versa (with `n.item` refined by dominating mode tests; re-tagging needs a mode test), children of every constructed split derive from their own side, both children get the same operations, every fresh id is stored and linked, bucket rewrites are `|= to_insert` / `-= to_delete` under their own id, no stale item lookup is fatal, the shortcut wipes the tree range, metadata publishes the threaded roots vector and the live item scan, every TmpNodesReader is applied, the batch selector partitions its input.',
+        text='Necessary local disciplines of the forest invariant, each decided on every path: no tree id reaches an item sink or vice versa (with `n.item` refined by dominating mode tests; re-tagging needs a mode test), children of every constructed split derive from their own side, both children get the same operations, every fresh id is stored and linked, bucket rewrites are `|= to_insert` / `-= to_delete` under their own id, no stale item lookup is fatal, the shortcut wipes the tree range, metadata publishes the threaded roots vector and the live item scan, every TmpNodesReader is applied, the batch selector partitions its input; a parent is re-linked whenever either child id changed (whole-id comparison); RoaringBitmap::push only receives ascending values; merged buckets are exactly the union of both sides.',
         design='DESIGN.md §4 C01',
         note='NOT decided: that the local disciplines compose into the global invariant for all histories (a proof-family job); remap across batches; split_after changing between builds.'),
     'C02': dict(
         technique='loop-exit enumeration, must-pass-through and dataflow-provenance rules on the traversal function\'s MIR',
-        text='Given C01 and C11, exactness under an unlimited budget reduces to the traversal\'s shape: only exits are budget/queue-empty/error, all roots seeded, both children pushed on every path, buckets contribute all ids, sort+dedup, each candidate scored against its live leaf in the caller txn, min-first bounded output with the entry\'s own normalized distance.',
+        text='Given C01 and C11, exactness under an unlimited budget reduces to the traversal\'s shape: only exits are budget/queue-empty/error, all roots seeded, both children pushed on every path, buckets contribute all ids, sort+dedup, each candidate scored against its live leaf in the caller txn, min-first bounded output with the entry\'s own normalized distance. The premises are not assumed: the C01 forest rules and the C11 kernel-shape rules are re-evaluated by this check, so a change that breaks exactness through the forest or a kernel is reported here too.',
         design='DESIGN.md §4 C02',
         note='NOT decided: numerical truth of distances (C11); forest completeness (C01).'),
     'C03': dict(
         technique='edge-dominance filter rule, loop-exit enumeration, def-use audit of the budget, formula extraction, per-metric header field read/write sets',
-        text='Every id entering the candidate list is filtered or under the no-filter branch; the budget only gates the loop and is (search_k or count x n_trees) x (oversampling or DEFAULT) with saturating arithmetic; bounded distinct ordered output; by_item and by_vector share the traversal, unknown id => Ok(None); per metric the query path reads no header field that only the build-time preprocess fills.',
+        text='Every id entering the candidate list is filtered or under the no-filter branch; the budget only gates the loop and is (search_k or count x n_trees) x (oversampling or DEFAULT) with saturating arithmetic; bounded distinct ordered output; by_item and by_vector share the traversal, unknown id => Ok(None); per metric the query path reads no header field that only the build-time preprocess fills. The C11 kernel-shape rules are re-evaluated (distances the results are ordered by).',
         design='DESIGN.md §4 C03',
         note='NOT decided: distance truth (C11); monotonicity is a consequence of the checked premises, not checked on values.'),
     'C04': dict(
@@ -106,7 +106,7 @@ CHECKS.update({
         note='NOT decided: bit-exact round trip for all patterns/dimensions; NEON paths. Known finding shared with C11.'),
     'C14': dict(
         technique='loop-exit enumeration with progress guard, conservation (must-pass-through) rules on the batch selector, worklist rules, forward def-use closure of the memory option',
-        text='A non-empty input always yields a non-empty batch (break needs >= K>=1 selected); the examined id is moved as a whole or not at all; the selected half is routed, the remainder re-examined or passed on, over-full results re-queued, worklist pops what it examines; the memory hint reaches only the selector.',
+        text='A non-empty input always yields a non-empty batch (break needs >= K>=1 selected); the examined id is moved as a whole or not at all; the selected half is routed, the remainder re-examined or passed on, over-full results re-queued, worklist pops what it examines; the memory hint reaches only the selector; re-splitting an over-full bucket from a partial batch can never hand back a single bucket (Q-PROGRESS: the worklist drains). The C01 forest rules are re-evaluated.',
         design='DESIGN.md §4 C14',
         note='NOT decided: termination when re-splitting does not shrink (C20); time.'),
     'C15': dict(
@@ -116,7 +116,7 @@ CHECKS.update({
         note='NOT decided: arithmetic of the automatic tree count (0 for dimensions = 1 -- observed, value-level, never reported); numeric equality roots.len() == n.'),
     'C20': dict(
         technique='type audit of ordered containers, sign-domain totality of side(), bounded-loop (strictly decreasing counter / constant range) rules, guard dominance rules',
-        text='No ordering on bare floats and no unwrap of float partial_cmp; side() total on NaN/0; split retries bounded by a strictly decreasing counter with a random fallback paired with a zero normal; no 0/0 in the imbalance; two-means bounded with NaN/non-positive norm guards; normalisation only under norm > 0; Cosine 0 for vanishing norms; the search path is value-independent in shape.',
+        text='No ordering on bare floats and no unwrap of float partial_cmp; side() total on NaN/0; split retries bounded by a strictly decreasing counter with a random fallback paired with a zero normal; no 0/0 in the imbalance; two-means bounded with NaN/non-positive norm guards; normalisation only under norm > 0; Cosine 0 for vanishing norms; the search path is value-independent in shape. The C01 forest rules are re-evaluated.',
         design='DESIGN.md §4 C20',
         note='NOT decided: termination of the recursion on all-duplicate sets (probabilistic); bounded time; invariant-guarded unwraps.'),
 })
